@@ -22,6 +22,7 @@ def build(tier, seed):
         for __ in ():
             for ___ in ():
                 pass
+    qs.append(sc.sq("tmpdir_trailing_slash", [B, A, B], maxmem=18, slash=1))
     qs.append(sc.sq("after_iter", [B, A, B], maxmem=40, scen=2))
     qs.append(sc.sq("after_iter_pool", [B, A, B], maxmem=40, scen=2, pool=1, deliver=2))
     qs.append(sc.sq("options", [A], entry="h_sorter_options", witness=True))
